@@ -3,6 +3,28 @@
 import glob, json, os
 # what had to be added to the checks before the change was caught (empty: caught as first run)
 STRENGTHENED = {
+ 'C01-link_empty_recursive': 'deep nests (3*10^5 levels of b/i/em, with and without text) inside a link',
+ 'C02-pre_tab_flushes_pending_space': 'inline elements with CSS white-space: pre / pre-wrap whose content starts with a tab, spaces or an ideographic space (use_doc_css)',
+ 'C03-text_node_moved_out_of_dom': 'a kept DOM converted to a render tree twice (second conversion rendered and checked), in C03 and C10',
+ 'C04-br_ends_line_in_place': 'variant with a <br> in the middle and white space around it',
+ 'C04-collapse_word_at_a_time': 'non-ASCII white space (no-break, em, ideographic, thin space, vertical tab) as separator at node boundaries',
+ 'C06-iterative_tree_clone': 'a quarter of the table renderings go through the three-step route on a clone of the tree',
+ 'C07-tree_build_size_estimates': 'cross-decorator route inside the compositional check itself',
+ 'C08-bare_url_link_unnumbered': 'links whose text is their own target',
+ 'C09-pre_flag_not_depth': '<pre> nested in <pre> (also through an inline element) followed by more outer text',
+ 'C09-blank_href_not_link': 'links with empty / blank href',
+ 'C10-plain_text_fast_path': 'markup-free inputs (with byte-order marks, NUL, zero-width space in front), CSS on html/body/*',
+ 'C05-fragment_marker_on_border': 'ids on tables, first rows, first cells (nested tables too) and on a wrapper <div>',
+ 'C12-ws_stack_dedup': 'nested <pre> in the pre generator; oracle treats it as a block of its own (lines with content compared in order)',
+ 'C13-self_describing_link_footnote': 'links whose text is their own target, empty and blank targets',
+ 'C15-raw_mode_off_restores_borders': 'builder order: no_table_borders() followed by raw_mode(false)',
+ 'C15-strikeout_unicode_space': 'struck-out runs ending in (non-ASCII) white space',
+ 'C16-empty_href_not_a_link': 'empty / blank / "#" targets in the affix documents',
+ 'C17-selector_comment_not_whitespace': 'comments with white space on both sides between compounds and after the selector',
+ 'C18-style_sheets_level_order': 'author rules split over two <style> elements at different depths (first deep at the start, second after the content)',
+ 'C19-style_elements_worklist_order': 'author declarations in several <style> elements (one per rule / deep-first then shallow), exhaustive and random part',
+ 'C19-table_section_colour_handdown': 'tables with classes and ids on row groups, rows and cells in the random part',
+ 'C20-type_selector_namespace': 'inline SVG / MathML subtrees whose elements own tokens; type selectors naming them',
  'C01-drop_leaf_shortcut': 'depth class: <template> (and alternating template/div, template/span) nests; linear-parsing tags at depth 10^5 in the quick tier',
  'C01-estimate_once_per_tree': 'cross-configuration route (tree built under one decorator, rendered by a configuration with another) in C01, C10 and C16',
  'C02-wrapped_block_min_one_column': 'min_wrap_width(0) in the C02 option mix',
